@@ -482,7 +482,7 @@ def run_property(pid, tier, seed):
                     raise Undecided("the rsbdd binary does not build from this tree (needed for the bounded CLI stand-in): " + cerr[-300:])
                 standins.append({"mode": mode, "label": "bounded - not counted as proved", "budget": budget, "seed": seed, "cases_checked": checked,
                                  "reports_only": R.ASPECTS.get(pid) if mode == "clitable" else None,
-                                 "bound": ("real binary over 51 formula texts (valid, malformed, extreme) x 17 option sets, 9 ordering files, 3 input channels, invalid UTF-8, plus seeded random combinations; requirement: no panic"
+                                 "bound": ("real binary over 54 formula texts (valid, malformed, extreme) x 17 option sets, 9 ordering files, 3 input channels, invalid UTF-8, plus seeded random combinations; requirement: no panic"
                                            if mode == "cli" else
                                            "real binary, 40+ formulas x {-m -t, -m -t -f true, -m -v, -m -c true|false -t}: exactly one satisfying row / listed model for a satisfiable formula (resp. for what -c X -t prints), none otherwise, and every assignment it covers satisfies it"
                                            if mode == "climodel" else
